@@ -93,6 +93,11 @@ def substitution_effect(model, X, substitutions, args=None, func=predict,
 
 	additional_func_kwargs = additional_func_kwargs or {}
 
+	unique_rows = torch.unique(torch.as_tensor(substitutions), dim=0)
+	if len(torch.unique(unique_rows[:, :2], dim=0)) != len(unique_rows):
+		raise ValueError("Substitutions cannot assign different characters " +
+			"to the same position of the same example.")
+
 	X_var = torch.clone(X)
 	X_var[substitutions[:, 0], :, substitutions[:, 1]] = 0
 	X_var[substitutions[:, 0], substitutions[:, 2], substitutions[:, 1]] = 1
